@@ -283,6 +283,12 @@ def main(tier="quick", seed=1):
     if ex.returncode != 0:
         ties.append("extractor: " + (ex.stdout.strip().split("\n")[-1] if ex.stdout.strip() else "exit %d" % ex.returncode))
 
+    # the surface table (which impls exist: `source_no_owner_is_clone`) and the other translated files the property file imports
+    ex2 = subprocess.run([sys.executable, os.path.join(TOOLS, "rs2lean.py")], stdout=subprocess.PIPE,
+                         stderr=subprocess.STDOUT, text=True, env=runner.ENV)
+    if ex2.returncode != 0:
+        ties.append("tools/rs2lean.py: " + (ex2.stdout.strip().split("\n")[-1] if ex2.stdout.strip() else "exit %d" % ex2.returncode))
+
     # b. + c. concurrently (lake and cargo do not share anything)
     with concurrent.futures.ThreadPoolExecutor(max_workers=3) as pool:
         f_lean = pool.submit(lean_side)
